@@ -2,7 +2,7 @@
    value (a NumberExpr tree) is replaced by a copy with fresh tokens, once re-attached to the root's
    store (well-formed result) and once left in a foreign store (result is not WF). *)
 From AB Require Import Desc Generated GeneratedWf Tree TreeDefs TreeProofs TreeWF TreeWFProofs TreeRun TreeFacts.
-From AB Require Import TreeEdit TreeEditProofs TreeEditProofs2.
+From AB Require Import TreeEdit TreeEditProofs TreeEditProofs2 TreeEditProofs3 TreeEditProofs4 TreeEditProofs5.
 From Coq Require Import ZArith String List Bool.
 Import ListNotations.
 Local Open Scope string_scope.
@@ -92,7 +92,6 @@ Proof. vm_compute. auto 20. Qed.
 
 (* ---- optional fields: `... USD, EUR ; hi` -> raw_inline_comment = None -> `... USD, EUR` -> raw_booking = "STRICT"
         -> `... USD, EUR "STRICT"`; and an inline comment created on the meta item (a path into a repeated field) ---- *)
-From AB Require Import TreeEditProofs3 TreeEditProofs4 TreeEditProofs5.
 
 Lemma classes_pivots_ok_all : classes_pivots_ok all_classes.
 Proof.
